@@ -98,7 +98,7 @@ class Chain:
 
 # ---------------------------------------------------------------------------
 # finite-element array semantics (the specification FeArray implements):
-# rank = ndim - 2, fields are padded on the right to the widest rank, plain
+# rank = ndim - 2, fields are padded to the widest rank (tensor axes aligned on the right, numpy's rule at each point), plain
 # arrays are constant tensors, .T swaps the tensor axes, @ follows __matmul__.
 # ---------------------------------------------------------------------------
 
@@ -137,13 +137,15 @@ class XFe(XArray):
         if isinstance(o, XFe):
             ra, rb = a._ndim, o._ndim
             nt = max(ra, rb)
+            # numpy's own rule at each point: tensor axes line up on the right, so the padding goes
+            # between the (Ne, nPg) axes and the tensor axes
             if ra < nt:
-                a = XArray(a.shape + (1,) * (nt - ra), a.data)
+                a = XArray(a.shape[:2] + (1,) * (nt - ra) + a.shape[2:], a.data)
             if rb < nt:
-                o = XArray(o.shape + (1,) * (nt - rb), o.data)
+                o = XArray(o.shape[:2] + (1,) * (nt - rb) + o.shape[2:], o.data)
         elif isinstance(o, XArray) and o.ndim > a._ndim:
             # a plain array is a constant tensor: the field is padded to its rank (FeArray rank alignment)
-            a = XArray(a.shape + (1,) * (o.ndim - a._ndim), a.data)
+            a = XArray(a.shape[:2] + (1,) * (o.ndim - a._ndim) + a.shape[2:], a.data)
         return a, o
 
     def _binop(self, o, f, reflected=False):
